@@ -1178,6 +1178,91 @@ func vRunC08Case(out *vOut, r *vRand, id int, stats map[string]int) {
 	c.finish()
 }
 
+// ---- C03 (sequential part): committed readers that live across rolls, HW moves, truncations and
+// compactions that replace the segment holding the HW.
+func vRunC03Case(out *vOut, r *vRand, id int, stats map[string]int) {
+	maxb := int64([]int{90, 140, 220}[r.intn(3)])
+	compact := r.intn(3) == 0
+	opts := Options{MaxSegmentBytes: maxb, Compact: compact, CompactMaxGoroutines: 1}
+	c := vNewLogCase(out, id, "c03", opts, stats)
+	if c.l == nil {
+		return
+	}
+	var pool [][]byte
+	if compact {
+		pool = [][]byte{[]byte("a"), []byte("b"), nil}
+	}
+	appendSome := func(k int) {
+		for b := 0; b < k && !c.viol; b++ {
+			n := 1 + r.intn(3)
+			var msgs []*Message
+			for j := 0; j < n; j++ {
+				msgs = append(msgs, c.genMsg(r, pool))
+			}
+			c.doAppend(msgs)
+		}
+	}
+	appendSome(4 + r.intn(6))
+	nops := 6 + r.intn(14)
+	for i := 0; i < nops && !c.viol; i++ {
+		nw := c.l.NewestOffset()
+		hw := c.l.HighWatermark()
+		switch r.pick(5, 4, 4, 6, 3, 2) {
+		case 0:
+			appendSome(1 + r.intn(2))
+		case 1:
+			if nw >= 0 {
+				c.doHW(int64(r.intn(int(nw) + 1)))
+			}
+		case 2: // a committed reader somewhere at or below the HW (or parked just above it)
+			c.doReaderOpen(int64(r.intn(int(hw)+2)), false)
+		case 3:
+			if live := c.liveReaders(); len(live) > 0 {
+				c.doReaderNext(live[r.intn(len(live))])
+			}
+		case 4: // truncate the uncommitted tail: inside the segment that holds the HW when possible
+			if nw > hw {
+				o := hw + 1 + int64(r.intn(int(nw-hw)))
+				for _, lr := range c.liveReaders() {
+					if o < lr.next {
+						o = lr.next
+					}
+				}
+				c.doTruncate(o)
+				stats["c03/truncate-above-hw"]++
+				// the new leader's data arrives
+				if r.intn(2) == 0 && !c.viol {
+					var msgs []*Message
+					for j := 0; j < 1+r.intn(3); j++ {
+						msgs = append(msgs, c.genMsg(r, pool))
+					}
+					c.doAppendSet(msgs, c.l.NewestOffset()+1)
+				}
+			}
+		default:
+			if compact {
+				c.layout()
+				c.doCompactKeepingReaders()
+				c.layout()
+			}
+		}
+		c.state()
+	}
+	if !c.viol {
+		for _, lr := range c.liveReaders() {
+			c.doReaderNext(lr)
+		}
+	}
+	c.finish()
+}
+
+// doCompactKeepingReaders compacts while live readers exist: what they still have to deliver is the
+// surviving records from their position on.
+func (c *vLogCase) doCompactKeepingReaders() {
+	c.doCompact()
+	c.stats["c03/compact-with-live-readers"]++
+}
+
 func TestVerifLog(t *testing.T) {
 	out := vOpenOut()
 	defer out.close()
@@ -1195,6 +1280,8 @@ func TestVerifLog(t *testing.T) {
 			vRunC09Case(out, r, i, stats)
 		case "c08":
 			vRunC08Case(out, r, i, stats)
+		case "c03":
+			vRunC03Case(out, r, i, stats)
 		}
 	}
 	out.emit(vM{"k": "stat", "dist": stats})
